@@ -239,6 +239,20 @@ func (e *Engine) registerDomain() {
 	r(vnPkg+".JSONText", func(c *CallCtx) []Outcome {
 		d, _ := getDoc(c)
 		s := c.st.newOpaqueDoc("json_" + d.name)
+		// the text of the document contains its members' values: it carries their taint (C14) --
+		// unless the document or the member is known not to hold the value
+		if k, ok := d.kind.ConstInt(); !ok || k == 3 {
+			var taint uint32
+			for _, m := range d.members {
+				if mk, ok := m.kind.ConstInt(); ok && mk != 1 {
+					continue
+				}
+				if m.str != nil {
+					taint |= sTaint(m.str)
+				}
+			}
+			s.p[0].taint |= taint
+		}
 		nd := *d
 		nd.s = s
 		var docs []*jsonDoc
@@ -776,6 +790,16 @@ func (e *Engine) registerDomain() {
 	r("crypto/rand.Int", func(c *CallCtx) []Outcome {
 		max := c.args[1].(Ptr)
 		mv := c.st.heap.objs[max.obj].(OpaqueV).data.(*Term)
+		if c.e.bound("crypto-rand-fixed", 0) > 0 {
+			// harnesses for which the drawn values are irrelevant (they only need SOME identifiers)
+			// fix every draw to one admissible value: the identifiers become constants
+			c.e.noteAssume("crypto/rand.Int returns a fixed admissible value (bound crypto-rand-fixed: the property checked does not depend on the identifiers drawn)")
+			var v *Term = I(7)
+			if mc, ok := mv.ConstInt(); ok && mc <= 7 {
+				v = I(0)
+			}
+			return c.ret(TupleV{Ptr{obj: c.st.newObj(OpaqueV{kind: "bigint", data: v})}, IfaceV{}})
+		}
 		v := FreshVar("crand", SInt)
 		c.st.addDef(And(Le(I(0), v), Lt(v, mv)))
 		return c.ret(TupleV{Ptr{obj: c.st.newObj(OpaqueV{kind: "bigint", data: v})}, IfaceV{}})
@@ -806,6 +830,9 @@ func (e *Engine) registerDomain() {
 	})
 	r("golang.org/x/oauth2.GenerateVerifier", func(c *CallCtx) []Outcome {
 		// 32 bytes from crypto/rand, base64url: a fresh secret value
+		if c.e.bound("crypto-rand-fixed", 0) > 0 {
+			return c.ret(constStr("vrfr"))
+		}
 		s := c.st.newSymStr("verifier", 4)
 		c.st.addDef(Ge(sLen(s), I(1)))
 		return c.ret(s)
